@@ -1800,7 +1800,8 @@ def sp_least_squares(fun, x0, bounds=None, **kw):
     # downstream in the library branches on it, and a non-linear equation over an uninterpreted integral makes
     # every later satisfiability query hard)
     c.event('libcall', ('least_squares', [to_term(x0), to_term(lo), to_term(hi)]), State.where)
-    c.event('least_squares', {'x': x, 'residual': rt, 'x0': to_term(x0), 'ensures': ir.eq(rt, 0)}, State.where)
+    c.event('least_squares', {'x': x, 'residual': rt, 'x0': to_term(x0), 'ensures': ir.eq(rt, 0), 'lo': to_term(lo),
+                              'hi': to_term(hi)}, State.where)
     return Opaque('lsq_result', x=Lane(x, 1))
 
 
